@@ -7,6 +7,7 @@ use std::io::Write;
 pub mod url;
 pub mod pipeline;
 pub mod htmldecode;
+pub mod html;
 pub mod inline;
 pub mod block;
 pub mod noderender;
@@ -58,6 +59,7 @@ pub fn streams() -> Vec<(&'static str, StreamFn)> {
         ("pipeline", pipeline::run as StreamFn),
         ("pipetabs", pipeline::run_tabs as StreamFn),
         ("htmldecode", htmldecode::run as StreamFn),
+        ("html", html::run as StreamFn),
         ("inline", inline::run as StreamFn),
         ("block", block::run as StreamFn),
         ("noderender", noderender::run as StreamFn),
